@@ -232,5 +232,8 @@ func (c *Collection) readChunk(chunk commit.Chunk, fn func(uint64, commit.Chunk,
 	c.lock.Lock()
 	defer c.slock.RUnlock(uint(chunk))
 	defer c.lock.Unlock()
+	if int(chunk) >= len(c.commits) { // nothing was committed to this chunk yet, it only holds reserved offsets
+		return fn(0, chunk, chunk.OfBitmap(c.fill))
+	}
 	return fn(c.commits[chunk], chunk, chunk.OfBitmap(c.fill))
 }
